@@ -188,7 +188,8 @@ def save_performance_midi(
                 )
             )
 
-        for n in performed_part.notes:
+        # in order of onset, so that at a shared tick the release of a note precedes the re-strike of its pitch
+        for n in sorted(performed_part.notes, key=lambda n: (n["note_on"], n["note_off"])):
             track = n.get("track", 0)
             ch = n.get("channel", 1)
             t_on = int(np.round(10**6 * ppq * n["note_on"] / mpq))
